@@ -4,6 +4,7 @@
 package farm
 
 import (
+	"context"
 	"errors"
 	"fmt"
 	"io"
@@ -28,6 +29,7 @@ type Event struct {
 	Endpoint int    // index of the endpoint
 	Proto    string // udp | tcp
 	Src      string // peer address
+	Dst      string // udp endpoints opened with PktInfo: destination address in the IP header of the datagram
 	Data     []byte
 	Seq      uint64 // request sequence number at this farm (ties sends to the request they answer)
 }
@@ -39,20 +41,22 @@ type Action struct {
 	Close bool          // tcp: close the connection now
 	Reset bool          // tcp: close with RST
 	Stall bool          // tcp: keep the connection open without answering until the client goes away
+	Via   *Endpoint     // udp: send the datagram through this endpoint's socket instead of the receiving one
 }
 
 // Script decides how an endpoint answers a request. It is called once per received datagram / TCP request.
 type Script func(ep *Endpoint, src net.Addr, req []byte, seq uint64) []Action
 
 type Endpoint struct {
-	Index int
-	Proto string
-	Addr  string // ip:port
-	Port  int
-	udp   *net.UDPConn
-	tcp   *net.TCPListener
-	farm  *Farm
-	Recv  atomic.Int64 // datagrams / requests received
+	Index   int
+	Proto   string
+	Addr    string // ip:port
+	Port    int
+	udp     *net.UDPConn
+	pktinfo bool
+	tcp     *net.TCPListener
+	farm    *Farm
+	Recv    atomic.Int64 // datagrams / requests received
 }
 
 type Farm struct {
@@ -113,6 +117,38 @@ func (f *Farm) AddUDP(ip string, port int) (*Endpoint, error) {
 	return ep, nil
 }
 
+// UDPOpts: PktInfo records the destination address of every datagram (IP_PKTINFO); ReuseAddr sets SO_REUSEADDR before
+// bind, so that a wildcard socket and sockets on specific addresses can share a port number.
+type UDPOpts struct{ PktInfo, ReuseAddr bool }
+
+func (f *Farm) AddUDPOpts(ip string, port int, o UDPOpts) (*Endpoint, error) {
+	lc := net.ListenConfig{Control: func(network, address string, rc syscall.RawConn) error {
+		var serr error
+		rc.Control(func(fd uintptr) {
+			if o.ReuseAddr {
+				serr = syscall.SetsockoptInt(int(fd), syscall.SOL_SOCKET, syscall.SO_REUSEADDR, 1)
+			}
+			if o.PktInfo && serr == nil {
+				serr = syscall.SetsockoptInt(int(fd), syscall.IPPROTO_IP, syscall.IP_PKTINFO, 1)
+			}
+		})
+		return serr
+	}}
+	pc, err := lc.ListenPacket(context.Background(), "udp4", fmt.Sprintf("%s:%d", ip, port))
+	if err != nil {
+		return nil, err
+	}
+	c := pc.(*net.UDPConn)
+	c.SetReadBuffer(4 << 20)
+	ep := &Endpoint{Index: len(f.Endpoints), Proto: "udp", udp: c, farm: f, pktinfo: o.PktInfo}
+	ep.Port = c.LocalAddr().(*net.UDPAddr).Port
+	ep.Addr = fmt.Sprintf("%s:%d", ip, ep.Port)
+	f.Endpoints = append(f.Endpoints, ep)
+	f.wg.Add(1)
+	go ep.serveUDP()
+	return ep, nil
+}
+
 func (f *Farm) AddTCP(ip string, port int) (*Endpoint, error) {
 	l, err := net.ListenTCP("tcp4", &net.TCPAddr{IP: net.ParseIP(ip), Port: port})
 	if err != nil {
@@ -143,8 +179,27 @@ func (f *Farm) Close() {
 func (ep *Endpoint) serveUDP() {
 	defer ep.farm.wg.Done()
 	buf := make([]byte, 4096)
+	oob := make([]byte, 256)
 	for {
-		n, src, err := ep.udp.ReadFromUDP(buf)
+		var n int
+		var src *net.UDPAddr
+		var err error
+		dst := ""
+		if ep.pktinfo {
+			var oobn int
+			n, oobn, _, src, err = ep.udp.ReadMsgUDP(buf, oob)
+			if err == nil {
+				if msgs, perr := syscall.ParseSocketControlMessage(oob[:oobn]); perr == nil {
+					for _, m := range msgs {
+						if m.Header.Level == syscall.IPPROTO_IP && m.Header.Type == syscall.IP_PKTINFO && len(m.Data) >= 12 {
+							dst = net.IP(m.Data[8:12]).String()
+						}
+					}
+				}
+			}
+		} else {
+			n, src, err = ep.udp.ReadFromUDP(buf)
+		}
 		if err != nil {
 			if ep.farm.closed.Load() || errors.Is(err, net.ErrClosed) {
 				return
@@ -155,7 +210,7 @@ func (ep *Endpoint) serveUDP() {
 		req := append([]byte{}, buf[:n]...)
 		seq := ep.farm.seq.Add(1)
 		ep.Recv.Add(1)
-		ep.farm.record(Event{T: t, Kind: "recv", Endpoint: ep.Index, Proto: "udp", Src: src.String(), Data: req, Seq: seq})
+		ep.farm.record(Event{T: t, Kind: "recv", Endpoint: ep.Index, Proto: "udp", Src: src.String(), Dst: dst, Data: req, Seq: seq})
 		s, _ := ep.farm.script.Load().(Script)
 		if s == nil {
 			continue
@@ -177,7 +232,11 @@ func (ep *Endpoint) serveUDP() {
 				if a.Data != nil {
 					// logged before the write: once the datagram is out the receiver may act on it before this goroutine runs again
 					ep.farm.record(Event{T: Mono(), Kind: "send", Endpoint: ep.Index, Proto: "udp", Src: src.String(), Data: a.Data, Seq: seq})
-					if _, err := ep.udp.WriteToUDP(a.Data, src); err != nil {
+					out := ep.udp
+					if a.Via != nil && a.Via.udp != nil {
+						out = a.Via.udp
+					}
+					if _, err := out.WriteToUDP(a.Data, src); err != nil {
 						ep.farm.record(Event{T: Mono(), Kind: "send-error", Endpoint: ep.Index, Proto: "udp", Src: src.String(), Data: a.Data, Seq: seq})
 					}
 				}
